@@ -567,9 +567,52 @@ def inplace_ownership(repo=None) -> core.Report:
     return rep
 
 
+def no_hidden_state(repo=None) -> core.Report:
+    """C18 (reproducibility): a query must not carry state from one call to the next --
+    no mutable default argument, no function that writes a module-level container."""
+    rep = core.Report(property_id="C18", level="other")
+    trees = load(repo)
+    ALLOWED_GLOBALS = {"_verif_stats", "warnings"}           # the verification hook's counters; warnings.formatwarning
+    for m, tree in trees.items():
+        module_containers = set()
+        for n in tree.body:
+            if isinstance(n, ast.Assign) and isinstance(n.value, (ast.Dict, ast.List, ast.Set, ast.DictComp, ast.ListComp)) or \
+               isinstance(n, ast.Assign) and isinstance(n.value, ast.Call) and getattr(n.value.func, "id", "") in ("dict", "list", "set"):
+                for t in n.targets:
+                    if isinstance(t, ast.Name): module_containers.add(t.id)
+        for q, fn in functions(tree):
+            bad = []
+            a = fn.args
+            for d in list(a.defaults) + [x for x in a.kw_defaults if x is not None]:
+                if isinstance(d, (ast.List, ast.Dict, ast.Set, ast.ListComp, ast.DictComp, ast.SetComp)) or \
+                   (isinstance(d, ast.Call) and getattr(d.func, "id", "") in ("set", "list", "dict", "defaultdict", "Counter")):
+                    bad.append(f"mutable default argument {ast.unparse(d)}")
+            local = {x.arg for x in a.args + a.kwonlyargs + a.posonlyargs}
+            for n in own_nodes(fn):
+                if isinstance(n, ast.Assign):
+                    for t in n.targets:
+                        if isinstance(t, ast.Name): local.add(t.id)
+            for n in own_nodes(fn):
+                tgt = None
+                if isinstance(n, (ast.Assign, ast.AugAssign)):
+                    for t in (n.targets if isinstance(n, ast.Assign) else [n.target]):
+                        if isinstance(t, ast.Subscript): tgt = root_name(t)
+                elif isinstance(n, ast.Call) and isinstance(n.func, ast.Attribute) and n.func.attr in MUTATORS:
+                    tgt = root_name(n.func.value)
+                elif isinstance(n, ast.Global):
+                    bad.append("global statement")
+                if tgt and tgt in module_containers and tgt not in local and tgt not in ALLOWED_GLOBALS:
+                    bad.append(f"writes module-level container {tgt}")
+            if a.defaults or a.kw_defaults or bad:
+                rep.obligations.append(Obligation(f"{m}.{q}.no_state_across_calls", f"fggs.{m}.{q}", "frame",
+                                                  PROVED if not bad else FAILED_NO_INPUT, "own", 0.0,
+                                                  f"fggs/{m}.py:{fn.lineno}", "; ".join(bad)))
+    return rep
+
+
 if __name__ == "__main__":
     import sys
-    for r in (assert_purity(), no_id_ordering(), inplace_ownership()):
+    for r in (assert_purity(), no_id_ordering(), inplace_ownership(), no_hidden_state()):
         bad = [o for o in r.obligations if o.status != PROVED]
         print(r.property_id, len(r.obligations), "obligations,", len(bad), "not proved")
         for o in (r.obligations if "-v" in sys.argv else bad):
